@@ -22,9 +22,9 @@ CmdMenu == {Cm(1, A, B, <<0, 1>>, Z, Z, 0), Cm(3, A, Z, Z, Z, Z, 0), Cm(4, B, Z,
            \cup {Cm(6, A, Z, Z, Z, Z, dl) : dl \in {3, 224, 225}}
 OneEach == {c \in CmdMenu : c.dlen \in {0, 16, 20, 48, 224}}
 CmdSeqs == {<<>>} \cup {<<c>> : c \in IF Level >= 2 THEN CmdMenu ELSE OneEach \cup {c \in CmdMenu : c.t = 2}}
-           \cup (IF Level >= 2 THEN {<<c, d>> : c \in OneEach, d \in {x \in OneEach : x.t \in {2, 5, 10, 11, 14}}} ELSE {<<Cm(2, A, Z, Z, Z, Z, 209), Cm(14, Z, Z, Z, Z, Z, 0)>>})
+           \cup (IF Level >= 2 THEN {<<c, d>> : c \in OneEach, d \in {x \in OneEach : x.t \in {5, 11, 14}}} ELSE {<<Cm(2, A, Z, Z, Z, Z, 209), Cm(14, Z, Z, Z, Z, Z, 0)>>})
 RootSets == IF Level >= 2 THEN {<<1, 0>>, <<2, 1>>, <<4, 3>>} ELSE {<<1, 0>>, <<4, 3>>}
-Isks == {<<FALSE, 0>>, <<TRUE, 0>>, <<TRUE, 4>>}
+Isks == IF Level >= 2 THEN {<<FALSE, 0>>, <<TRUE, 0>>, <<TRUE, 4>>} ELSE {<<FALSE, 0>>, <<TRUE, 4>>}
 Encs == {<<FALSE, 128, 0>>, <<TRUE, 128, 1>>, <<TRUE, 256, 3>>}
 Descs == IF Level >= 2 THEN {[i \in 1..5 |-> 64 + i], [i \in 1..17 |-> 64 + i]} ELSE {[i \in 1..17 |-> 64 + i]}
 Inputs == {[curve |-> cv, nkeys |-> rs[1], used |-> rs[2], isk |-> ik[1], iskCurve |-> cv, udLen |-> ik[2], udSha |-> "u",
